@@ -8,10 +8,11 @@
    every WHERE evaluator `eval_where` (a parameter).  `wf s` holds for every state reachable
    from the empty store (C03_history) - it says that the quad list has no repetition, that the
    graph of every stored quad is catalogued and that every stored term is known to the dictionary.
-   `known_kw_a u` is the class of the open finding C03-template-keyword-a: a template carries the
-   keyword `a` in predicate position - of the quad or of a quoted triple inside it (the code stores
-   the word `a`, SPARQL means rdf:type).  Terms include RDF-star quoted triples `Qt s p o`; the
-   legality filters of quoted triples (is_legal_quoted_triple) are part of model and Spec. *)
+   Terms include RDF-star quoted triples `Qt s p o`; the legality filters of quoted triples
+   (is_legal_quoted_triple) are part of model and Spec.  No known class: the finding
+   C03-template-keyword-a (the keyword `a` in predicate position of a template was stored as the
+   word `a`) was repaired in /repo by 67601f1; `exec_update_gen kwa` is the executor with the reading
+   `kwa` of that keyword, the code is `exec_update = exec_update_gen rdf_type`. *)
 Require Import KV.Update.Spec KV.Update.Model KV.Update.Bgp KV.Update.SetProofs KV.Update.InstProofs
   KV.Update.Proofs KV.Update.BgpProofs KV.Update.Run KV.Update.RunProofs.
 Require Import Permutation.
@@ -24,7 +25,7 @@ Require Import Permutation.
 Theorem C03_step :
   forall (wh : Type) (eval_where : wh -> dataset -> list solution) (where_terms : wh -> list term)
          (u : update wh) (s s' : state) (i d : N) (tbl : list blmap),
-    wf s -> known_kw_a u = false ->
+    wf s ->
     exec_update wh eval_where where_terms u s = (s', Done i d, tbl) ->
     exists bn, fresh_bn bn (den s) /\
                den s' = fst (spec_update eval_where u bn (den s)) /\
@@ -42,25 +43,32 @@ Theorem C03_counts :
 Proof. exact spec_apply_counts. Qed.
 Print Assumptions C03_counts.
 
-(* Without the class hypothesis the model computes the same semantics with `a` read as the word `a`. *)
-Theorem C03_step_model :
+(* Regression for the repaired finding C03-template-keyword-a.  The executor with any reading `kwa`
+   of the keyword `a` in predicate position computes the Spec with that reading ... *)
+Theorem C03_step_any_reading :
   forall (wh : Type) (eval_where : wh -> dataset -> list solution) (where_terms : wh -> list term)
-         (u : update wh) (s s' : state) (i d : N) (tbl : list blmap),
+         (kwa : term) (u : update wh) (s s' : state) (i d : N) (tbl : list blmap),
     wf s ->
-    exec_update wh eval_where where_terms u s = (s', Done i d, tbl) ->
+    exec_update_gen wh eval_where where_terms kwa u s = (s', Done i d, tbl) ->
     exists bn, fresh_bn bn (den s) /\
-               den s' = fst (spec_update_gen eval_where a_word u bn (den s)) /\
-               (i, d) = snd (spec_update_gen eval_where a_word u bn (den s)).
-Proof. exact step_model. Qed.
-Print Assumptions C03_step_model.
+               den s' = fst (spec_update_gen eval_where kwa u bn (den s)) /\
+               (i, d) = snd (spec_update_gen eval_where kwa u bn (den s)).
+Proof. exact step_any_reading. Qed.
+Print Assumptions C03_step_any_reading.
 
-(* The unchanged code violates the property inside the class: INSERT DATA { <i1> a <i2> }. *)
-Theorem C03_kw_a_refuted :
-  exists (u : update gwhere) (s : state),
-    known_kw_a u = true /\ wf s /\
-    forall bn, den (fst (fst (exec_update gwhere eval_gwhere gwhere_terms u s))) <> fst (spec_update eval_gwhere u bn (den s)).
-Proof. exact kw_a_refuted. Qed.
-Print Assumptions C03_kw_a_refuted.
+(* ... and the pre-repair reading (the word `a`) contradicts the Spec on INSERT DATA { <i1> a <i2> } and
+   on INSERT DATA { <i1> <i5> << <i2> a <i3> >> }, while the repaired executor agrees with it on both. *)
+Theorem C03_kw_a_refuted_before_fix :
+  let u1 : update gwhere := InsertData [TQ (TConst (Iri 1)) TKwA (TConst (Iri 2)) GDefault] in
+  let u2 : update gwhere := InsertData [TQ (TConst (Iri 1)) (TConst (Iri 5)) (TQuoted (TConst (Iri 2)) TKwA (TConst (Iri 3))) GDefault] in
+  let s := St [] [] [] 1 [] in
+  wf s /\
+  (forall bn, den (fst (fst (exec_update_gen gwhere eval_gwhere gwhere_terms a_word u1 s))) <> fst (spec_update eval_gwhere u1 bn (den s))) /\
+  (forall bn, den (fst (fst (exec_update_gen gwhere eval_gwhere gwhere_terms a_word u2 s))) <> fst (spec_update eval_gwhere u2 bn (den s))) /\
+  (forall bn, den (fst (fst (exec_update gwhere eval_gwhere gwhere_terms u1 s))) = fst (spec_update eval_gwhere u1 bn (den s))) /\
+  (forall bn, den (fst (fst (exec_update gwhere eval_gwhere gwhere_terms u2 s))) = fst (spec_update eval_gwhere u2 bn (den s))).
+Proof. exact kw_a_refuted_before_fix. Qed.
+Print Assumptions C03_kw_a_refuted_before_fix.
 
 (* Atomicity: a rejected request - malformed text, a query, an operation tree the parser or the
    executor refuses - leaves quads and catalog exactly as they were; only the dictionary, the
@@ -81,7 +89,7 @@ Theorem C03_atomic_executor :
          (u : update wh) (s s' : state) (c : N) (tbl : list blmap),
     exec_update wh eval_where where_terms u s = (s', Rejected c, tbl) ->
     quads s' = quads s /\ cat s' = cat s /\ pfx s' = pfx s /\ incl (dict s) (dict s') /\ next s <= next s'.
-Proof. exact exec_update_rejected. Qed.
+Proof. exact atomic_executor. Qed.
 Print Assumptions C03_atomic_executor.
 
 (* A request that parses to an operation tree is executed if and only if the tree is well formed
@@ -106,7 +114,7 @@ Theorem C03_history :
     (forall w D sol v t a, In sol (eval_where w D) -> lookup v sol = Some t -> In a (atoms t) ->
        term_in_dataset a D \/ exists c, In c (where_terms w) /\ In a (atoms c)) ->
     forall (reqs : list (request wh)) (s : state),
-      wf s -> forallb (fun r => negb (req_known r)) reqs = true ->
+      wf s ->
       let res := run wh eval_where where_terms reqs s in
       spec_trace eval_where (den s) (combine reqs (snd res)) (den (fst res)) /\
       wf (fst res) /\ length (snd res) = length reqs.
@@ -125,7 +133,7 @@ Theorem C03_fresh_bnodes :
        exists k, t = Bn k l /\ next s <= k < next s' /\ ~ In t (dict s)) /\
     (forall i i' bl bl' l l' t, nth_error tbl i = Some bl -> nth_error tbl i' = Some bl' ->
        lookup l bl = Some t -> lookup l' bl' = Some t -> i = i' /\ l = l').
-Proof. exact exec_update_fresh. Qed.
+Proof. exact fresh_bnodes. Qed.
 Print Assumptions C03_fresh_bnodes.
 
 (* The allocator loop terminates: the fuel of the model (size of the dictionary + 1) is never exhausted. *)
